@@ -83,8 +83,9 @@ def dump_mir():
         # keep the cache small: drop dumps of other trees
         try:
             for other in os.listdir(CACHE):
-                if other != th and len(other) == 24:
-                    shutil.rmtree(os.path.join(CACHE, other), ignore_errors=True)
+                po = os.path.join(CACHE, other)
+                if other != th and len(other) == 24 and time.time() - os.path.getmtime(po) > 6 * 3600:
+                    shutil.rmtree(po, ignore_errors=True)
         except OSError:
             pass
 
@@ -325,7 +326,8 @@ class Check:
     # -------------------------------------------------------------- finish
     def finish(self, level_explanation='', checker_cmd=None):
         wall = time.time() - self.t0
-        os.makedirs(os.path.join(VERIF, 'evidence'), exist_ok=True)
+        evdir = os.environ.get('VERIF_EVIDENCE_DIR') or os.path.join(VERIF, 'evidence')
+        os.makedirs(evdir, exist_ok=True)
         os.makedirs(os.path.join(VERIF, 'replays'), exist_ok=True)
         status = 0
         lines = []
@@ -385,7 +387,7 @@ class Check:
             'wall_s': round(wall, 2),
             'violations': len(self.violations),
         }
-        with open(os.path.join(VERIF, 'evidence', '%s.json' % self.pid), 'w', encoding='utf-8') as f:
+        with open(os.path.join(evdir, '%s.json' % self.pid), 'w', encoding='utf-8') as f:
             json.dump(ev, f, ensure_ascii=False, indent=1)
         for ln in lines:
             print(ln, flush=True)
